@@ -377,6 +377,57 @@ def judge_redirect(rec: Recorder, url1: str, url2: str, proxy: str | None, heade
         pm.clear()
 
 
+class ClosingSrv:
+    """Answers and closes: the pool keeps the connection *object* and has to establish everything again for the next request."""
+
+    def on_request(self, net: netsim.Net, sc: netsim.ServerConn, req: wire.Request) -> None:
+        sc.write(wire.build_response(200, body=b"ok", keepalive=False))
+        sc.close()
+
+
+def judge_reconnect_sequence(rec: Recorder, urls: list[str], proxy: str | None) -> None:
+    """Several requests to the same origins through ONE manager while the server closes the connection after every answer:
+    every request - also one that re-uses a connection object whose socket was closed - is dialled, tunnelled and
+    addressed as its URL says."""
+    import urllib3
+
+    case = {"reconnect_urls": urls, "proxy": proxy}
+    with netsim.Net(ClosingSrv(), fake_tls="inner") as net, warnings.catch_warnings():
+        warnings.simplefilter("ignore")
+        pm = urllib3.ProxyManager(proxy, cert_reqs="CERT_NONE", maxsize=1) if proxy else urllib3.PoolManager(cert_reqs="CERT_NONE", maxsize=1)
+        got = []
+        for u in urls:
+            try:
+                pm.request("GET", u, retries=False, redirect=False)
+            except Exception as e:  # noqa: BLE001
+                rec.fail(case, "request-failed-after-reconnect", {"url": u, "exc": type(e).__name__, "route": "proxy" if proxy else "direct", "history": urls[: urls.index(u)]}, f"request for {u!r} on a manager whose earlier connections were closed by the server: {type(e).__name__}: {e!s:.100}")
+                pm.clear()
+                return
+            evs = [e for e in net.events if e[1] == "request"]
+            st = net.states[evs[-1][2]]
+            got.append((u, st.dial["host"], st.dial["port"], st.server.tunnel, st.server.requests[evs[-1][3]]))
+        pm.clear()
+    rec.mon("reconnect_sequence")
+    for u, dh, dp, tunnel, req in got:
+        ref = ref_reading(u)
+        if ref is None:
+            continue
+        exp = expected(ref)
+        obs = {"url": u, "dial": [dh, dp], "tunnel": tunnel.decode("latin-1") if tunnel else None, "route": "proxy" if proxy else "direct", "history": urls[: urls.index(u)]}
+        if proxy:
+            if (dh, dp) != ("proxy.test", 3128):
+                rec.fail(case, "dial-wrong", obs, f"{u!r} through the proxy dialled {(dh, dp)}")
+                return
+            if u.startswith("https://"):
+                want = f"{exp['dial_host']}:{exp['dial_port']}".lower()
+                if tunnel is None or tunnel.decode("latin-1").lower().replace("[", "").replace("]", "") != want.replace("[", "").replace("]", ""):
+                    rec.fail(case, "tunnel-target-wrong", dict(obs, want=want), f"{u!r} travelled {'outside any tunnel' if tunnel is None else 'in a tunnel to ' + tunnel.decode('latin-1')} (want CONNECT {want})")
+                    return
+        elif (dh.lower(), dp) != (str(exp["dial_host"]).lower(), exp["dial_port"]):
+            rec.fail(case, "dial-wrong", dict(obs, want=[exp["dial_host"], exp["dial_port"]]), f"{u!r} dialled {(dh, dp)}")
+            return
+
+
 def judge_zone_case(rec: Recorder, urls: list[str]) -> None:
     """Scoped IPv6 literals whose zone ids differ only in letter case name different interfaces (zone ids are opaque and
     interface names case-sensitive): through ONE manager each request must travel on a connection opened to its own
@@ -492,6 +543,11 @@ def run_shard(ctx: Ctx, rec: Recorder) -> None:
                     for container in ("dict", "hd"):
                         rec.case(["mgr-seq", seq, proxy, shared, container])
                         judge_manager_sequence(rec, seq, proxy, shared, container)
+    if ctx.shard == 0:
+        for seq in (["https://s.test/1", "https://s.test/2", "https://s.test/3"], ["https://s.test:8443/1", "http://h.test/2", "https://s.test:8443/3", "http://h.test/4"], ["http://h.test/1", "http://h.test/2"], ["https://[::1]:8443/1", "https://[::1]:8443/2"]):
+            for proxy in (None, "http://proxy.test:3128"):
+                rec.case(["reconnect", seq, proxy])
+                judge_reconnect_sequence(rec, seq, proxy)
     if ctx.shard == 0:
         for zs in (["http://[fe80::1%25eth0]:8080/a", "http://[fe80::1%25ETH0]:8080/b"], ["http://[fe80::1%25ETH0]/a", "http://[fe80::1%25eth0]/b", "http://[fe80::1%25Eth0]/c"], ["http://[FE80::1%25eth0]/a", "http://[fe80::1%25eth0]/b"]):
             rec.case(["zone-case", zs])
